@@ -144,6 +144,18 @@ func (it *Interp) block(ready func() bool, what string) {
 	for {
 		run := ts.runnable(nil)
 		if len(run) == 0 {
+			// everybody waits: the caller may cancel its context now (external contexts are cancellable at any moment)
+			cancelled := false
+			for _, ec := range it.externalCtxs {
+				if !ec.cancelled && it.branch(it.fresh("ctx_cancel_"+ec.label, SBool), "ctxcancel-idle") {
+					it.ctxCancel(ec, "canceled")
+					cancelled = true
+					break
+				}
+			}
+			if cancelled {
+				continue
+			}
 			// global deadlock
 			msg := fmt.Sprintf("all goroutines blocked (%s at %s) %s", what, it.site(), ts.describe())
 			if cur.main {
